@@ -14,7 +14,7 @@ SCRIPT := <puller> <comp none|zstd> <fmt beve|raw> <open ok|err|cut> <verify ok|
   verify := panic / panics / panicv = verify panics with a String / &'static str / other payload;
             slow = accepts after a delay
   fault dN / pN := the caller's digest sink returns Err / panics once more than N bytes were fed
-  resp   := c:<B>:<0|1>  (chunk body, last flag) | e (error response) | x (connection cut) | h (never answers)
+  resp   := c:<B>:<0|1>  (chunk body, last flag) | e (error response) | x (connection cut) | h (never answers) | z<ms> (stalls, then goes on)
   B      := <H> (hex) | g<seed>.<len> (`genBytes seed len`, for large bodies)
   fault  := N: the temp file takes N bytes and the write of the next one fails (the pulling child runs
             under RLIMIT_FSIZE = N with SIGXFSZ ignored: EFBIG); sync: every write succeeds and fsync
@@ -103,7 +103,8 @@ the wire (`:: …`). -/
 def parseScript (ws : List String) : Option (Parsed × List String) :=
   match ws with
   | pu :: co :: fm :: op :: ve :: tr :: de :: st :: dc :: wf :: "wire" :: rest =>
-    let wireWs := rest.takeWhile (· ≠ "::")
+    -- `z<ms>` = the peer stalls that long before its next answer: invisible to the model
+    let wireWs := (rest.takeWhile (· ≠ "::")).filter fun w => !(w.startsWith "z" ∧ (w.drop 1).toString.isNat)
     let after := (rest.dropWhile (· ≠ "::")).drop 1
     -- `@wl<N>`: the pulling WebSocket client refuses inbound frames over N bytes; a chunk response is a
     -- 48-byte header, a 1-byte query and the body: the first oversized one ends the connection
